@@ -615,7 +615,58 @@ func ruleReadAtEOF(p *Prog, r *Report) {
 				}
 				uses(cnt, 0)
 			}
-			if compared {
+			// and the error is looked at only where the count has already been found short: a test of the error that is
+			// not under a comparison of the count (a loop that says `if err != nil { return }` before `off += n`)
+			// refuses the full read that comes with io.EOF
+			early := ""
+			if errV := tupleExtract(call, 1); errV != nil && cnt != nil {
+				var fromCnt func(v ssa.Value, d int) bool
+				fromCnt = func(v ssa.Value, d int) bool {
+					if d > 6 {
+						return false
+					}
+					if v == ssa.Value(cnt) {
+						return true
+					}
+					switch x := v.(type) {
+					case *ssa.Convert:
+						return fromCnt(x.X, d+1)
+					case *ssa.BinOp:
+						return fromCnt(x.X, d+1) || fromCnt(x.Y, d+1)
+					case *ssa.Phi:
+						for _, e := range x.Edges {
+							if fromCnt(e, d+1) {
+								return true
+							}
+						}
+					}
+					return false
+				}
+				eachInstr(f, func(b *ssa.BasicBlock, _ int, in ssa.Instruction) {
+					ifi, ok := in.(*ssa.If)
+					if !ok || early != "" {
+						return
+					}
+					bo, ok := ifi.Cond.(*ssa.BinOp)
+					if !ok || !(bo.X == ssa.Value(errV) || bo.Y == ssa.Value(errV)) || !(isNilConst(bo.X) || isNilConst(bo.Y)) {
+						return
+					}
+					under := false
+					for _, cd := range condsAt(b) {
+						// a comparison made after this very call (the loop condition on the count accumulated by earlier
+						// iterations does not qualify)
+						if c2, ok := cd.V.(*ssa.BinOp); ok && (fromCnt(c2.X, 0) || fromCnt(c2.Y, 0)) && call.Block().Dominates(cd.At) {
+							under = true
+						}
+					}
+					if !under {
+						early = p.posStr(ifi.Cond.Pos())
+					}
+				})
+			}
+			if compared && early != "" {
+				r.Bad("RDATEOF", key, at, "the error of ReadAt is tested at "+early+" before the count has been compared: a reader that reports io.EOF together with the last bytes (legal for io.ReaderAt) is refused although it delivered everything asked for")
+			} else if compared {
 				r.OK("RDATEOF", key, at, "the count returned by ReadAt is compared before the outcome is decided")
 			} else {
 				r.Bad("RDATEOF", key, at, "the count returned by ReadAt is never looked at: a reader that reports io.EOF together with the last bytes (legal for io.ReaderAt) is refused although it delivered the whole window, while bytes.Reader over the same bytes succeeds")
